@@ -90,7 +90,11 @@ func H_custom() {
 	val, rec := vMkRec(c, poison)
 	rec.isFlag = flagAnswer
 	// environment
-	env := vAsciiString("env", vParamInt("envLen"))
+	short := vParamInt("short") == 1 // VarOpt(name, value, desc) / VarArg(...): no environment variable, no SetByUser
+	env := ""
+	if !short {
+		env = vAsciiString("env", vParamInt("envLen"))
+	}
 	if env != "" {
 		vSetenv("CE", env)
 	}
@@ -128,6 +132,13 @@ func H_custom() {
 			}
 		}
 	}
+	if withFold && !usedFold && len(argv) == 2 && argv[0] == "-x" && argv[1] == "-x" && vChoice("behind", 2) == 1 {
+		// three bare occurrences folded into one token that is not the first one: -o q -xxx
+		usedFold = true
+		foldVal = "q"
+		argv = []string{"-o", "q", "-xxx"}
+		cli = []string{"true", "true", "true"}
+	}
 	if !asOpt {
 		argv = append([]string{"--"}, cli...)
 	}
@@ -139,7 +150,11 @@ func H_custom() {
 	app.ErrorHandling = flag.ContinueOnError
 	var user bool
 	if asOpt {
-		app.Var(VarOpt{Name: "x xx", Value: val, EnvVar: "CE", SetByUser: &user, HideValue: true})
+		if short {
+			app.VarOpt("x xx", val, "")
+		} else {
+			app.Var(VarOpt{Name: "x xx", Value: val, EnvVar: "CE", SetByUser: &user, HideValue: true})
+		}
 		app.Spec = "[-x...]"
 		if vParamInt("group") == 1 {
 			app.Spec = "[OPTIONS]" // the same values through an option group
@@ -161,7 +176,11 @@ func H_custom() {
 			argv = append(argv, "pos")
 		}
 	} else {
-		app.Var(VarArg{Name: "X", Value: val, EnvVar: "CE", SetByUser: &user, HideValue: true})
+		if short {
+			app.VarArg("X", val, "")
+		} else {
+			app.Var(VarArg{Name: "X", Value: val, EnvVar: "CE", SetByUser: &user, HideValue: true})
+		}
 		app.Spec = "[X...]"
 	}
 	declLog := append([]string(nil), rec.log...)
@@ -220,6 +239,8 @@ func H_custom() {
 	} else {
 		vCover("ok")
 		vAssert(ran == 1 && err == nil, "C19: a valid invocation was rejected")
-		vAssert(user == (len(cli) > 0), "C19/C15: SetByUser")
+		if !short {
+			vAssert(user == (len(cli) > 0), "C19/C15: SetByUser")
+		}
 	}
 }
